@@ -186,7 +186,8 @@ def run_targets(names, servers, threads=1, extra=(), unresolvable=(), gate=None,
 
 
 def run_single(name, servers, ip, extra=(), unresolvable=False, policy=None, rate=False):
-    table = {} if unresolvable else {ip: fresh_copy(servers[name])}
+    # `ip` may carry a port ('10.8.7.1:2222'): the scripted server then answers on that address whatever the port
+    table = {} if unresolvable else {ip.split(':')[0]: fresh_copy(servers[name])}
     host = ('no-such-host-%s.invalid' % ip.replace('.', '-')) if unresolvable else ip
     args = ['-n'] + ([] if rate else ['--skip-rate-test']) + list(extra)
     if policy:
